@@ -125,8 +125,8 @@ Section Trace.
   Qed.
 
   Theorem model_meets_spec : forall h, (forall i, In i h -> wt (i_key i) (i_val i)) ->
-    ok_case {| c_graph := false; c_ops := trace_of st0 h |} = true.
+    forall sizes, ok_case {| c_graph := false; c_sizes := sizes; c_ops := trace_of st0 h |} = true.
   Proof.
-    intros. unfold ok_case. simpl. apply model_meets_spec_trace; auto using Inv0, KInv0; constructor.
+    intros h H sizes. unfold ok_case. simpl. apply model_meets_spec_trace; auto using Inv0, KInv0; constructor.
   Qed.
 End Trace.
